@@ -210,7 +210,7 @@ func genC12(e *emitter, r *rng, tier string) {
 		o := fmt.Sprintf("B%d", r.pick([]int{1, 4, 16}))
 		far := r.pick([]int{2500, 4000, 9000})
 		for v := 1; v <= 3; v++ {
-			emitScriptLine(e, v, "G:-1:1:0", fmt.Sprintf("cons;fpr:0:r0~20,r%d~%d:%s:%d:%d;cons", far, far+20, o, r.intn(3), k))
+			emitScriptLine(e, v, "G:-1:1:0", fmt.Sprintf("cons;fpr:0:r0~200,r%d~%d:%s:%d:%d;cons", far, far+20, o, r.intn(3), k))
 		}
 		e.count("C12.prompt.multirange")
 	}
